@@ -14,7 +14,7 @@ import re
 from lib import core
 from lib.runner import PropertyCheck
 
-IMPORTS = ('From Coq Require Import List ZArith NArith String Ascii.\nFrom Xr Require Import Base.Show Ord.Derived Ord.Pad Ord.TimSort.\nImport ListNotations.\nOpen Scope Z_scope.\n'
+IMPORTS = ('From Coq Require Import List ZArith NArith String Ascii.\nFrom Xr Require Import Base.Show Ord.Derived Ord.Pad Ord.TimSort Ord.TimSortTrace.\nImport ListNotations.\nOpen Scope Z_scope.\n'
            'Fixpoint show_codes (l : list N) : string := match l with nil => EmptyString | c :: r => String (ascii_of_N c) (show_codes r) end.\n'
            'Definition show_c (c : comparison) : string := match c with Lt => "-1"%string | Eq => "0"%string | Gt => "1"%string end.\n')
 
@@ -374,7 +374,55 @@ class C19(PropertyCheck):
             form = rng.choice(['sort', 'sort', 'sort_reverse', 'n_smallest(2, ', 'nth_smallest(0, '])
             call = f'{lit}.{form}({cmpf})' if '(' not in form else f'{lit}.{form}{cmpf})'
             mj.append({'id': f'm{i}', 'src': f'fn c0() -> str {{ to_str({call}) }}', 'calls': ['c0']})
-        sres = core.run_harness(ctx['binary'], sj + fj + mj, os.path.join(workdir, 'hs'), timeout=300)
+        # the comparator prints every pair it is called with: the printed sequence must be the call sequence of the model of the
+        # interpreter's own sort (Ord/TimSortTrace.v: sortedness pre-pass, insertion sort up to 20, run detection, extension,
+        # collapse rule, forward / backward merges). This ties the ALGORITHM of the proved model to the code, not just its result.
+        tj, tterms = [], []
+        for i in range(30 if tier == 'quick' else 300):
+            n = rng.choice([2, 3, 5, 19, 20, 21, 22, 25, 31, 40, 64, 100] + ([150, 200] if tier == 'thorough' else []))
+            m = rng.choice([2, 3, 7, 50, 1000])
+            xs = [rng.randrange(1000) for _ in range(n)]
+            shape = rng.random()
+            if shape < 0.3 and n > 4:
+                k = rng.randrange(1, n)
+                xs = sorted(xs[:k], key=lambda v: v % m) + sorted(xs[k:], key=lambda v: -(v % m))
+            elif shape < 0.5 and n > 6:
+                cuts = sorted(rng.sample(range(1, n), rng.choice([2, 3, 4])))
+                parts, prev = [], 0
+                for c_ in cuts + [n]:
+                    parts.append(sorted(xs[prev:c_], key=lambda v: v % m, reverse=rng.random() < 0.3))
+                    prev = c_
+                xs = [v for p_ in parts for v in p_]
+            elif shape < 0.55:
+                xs.sort(key=lambda v: v % m)
+            lit = '[' + ', '.join(map(str, xs)) + ']'
+            tj.append({'id': f't{i}', 'src': f'fn c0() -> str {{ to_str({lit}.sort((a: int, b: int)->{{display(a*1000+b)*0 + a % {m} - b % {m}}})) }}', 'calls': ['c0']})
+            tterms.append(f'let \'(o, t) := xsortT (fun a b => Z.compare (a mod {m}) (b mod {m})) [{"; ".join(map(str, xs))}] in '
+                          f'((match o with Some r => show_list show_Z r | None => "model-failure" end) ++ "|" ++ show_list show_Z (map (fun p => fst p * 1000 + snd p) t))%string')
+        sres = core.run_harness(ctx['binary'], sj + fj + mj + tj, os.path.join(workdir, 'hs'), timeout=300)
+        tmodel = core.coq_eval(tterms, self.imports, os.path.join(workdir, 'coqt'), shard_size=10, timeout=900)
+        n_trace = 0
+        for job, m in zip(tj, tmodel):
+            r = sres.get(job['id'])
+            n_eval += 1
+            if m is None or m.startswith('model-failure'):
+                raise core.CheckError('sort trace model evaluation failed: ' + str(m)[:200])
+            if r is None or r.get('compile') != 'ok':
+                violations.append({'what': 'sort with a printing comparator did not run', 'case': {'src': job['src']}, 'impl': str(r and r.get('compile'))[:300], 'model': m[:200]})
+                continue
+            got = r['calls'][0][2:] + '|[' + ', '.join((r.get('stdout') or '').split()) + ']'
+            if got != m:
+                gv, gt = got.split('|')
+                mv, mt = m.split('|')
+                if gv != mv:
+                    violations.append({'what': 'sort with a key comparator: the result is not what the reference stable sort gives', 'case': {'src': job['src']}, 'impl': gv[:400], 'model': mv[:400]})
+                else:
+                    violations.append({'what': 'the comparator calls made by the interpreter\'s sort are not those of the model of its algorithm (Ord/TimSortTrace.v): '
+                                               'the theorem C19_sort_builtin_is_reference_sort no longer speaks about this code', 'broken_correspondence': 'Ord/TimSortTrace.v xsortT',
+                                       'case': {'src': job['src']}, 'impl': gt[:400], 'model': mt[:400]})
+            else:
+                n_trace += 1
+                distinct.add(job['src'])
         smodel = core.coq_eval(sterms, self.imports, os.path.join(workdir, 'coqs'), shard_size=40, timeout=900)
         for job, m, (form, n) in zip(sj, smodel, smeta):
             r = sres.get(job['id'])
@@ -472,7 +520,7 @@ class C19(PropertyCheck):
                                    'impl': c0, 'model': want})
             else:
                 distinct.add(job['src'])
-        ctx['coverage'] = {'evaluations': n_eval, 'distinct_nontrivial': len(distinct), 'samples': samples, 'value_pairs': len(jobs), 'law_programs': len(lj), 'sort_cases': len(sj),
+        ctx['coverage'] = {'evaluations': n_eval, 'distinct_nontrivial': len(distinct), 'samples': samples, 'value_pairs': len(jobs), 'law_programs': len(lj), 'sort_cases': len(sj), 'sort_traces_agreeing': n_trace,
                            'failing_comparators': len(fj), 'format_cases': len(fjobs)}
         return violations
 
